@@ -27,7 +27,13 @@ RULE = (
     "twice (equal key+hash demanded) and every unordered pair of variants (different keys "
     "demanded); trees a op b, (a op1 b) op2 c, a op2 (b op1 c) over + - * / ** @ with a "
     "leaf pool: rebuild equality, and every single-leaf, single-operator, operand-swap and "
-    "re-nesting mutation must change the key. Non-trivial = distinct (family or template, "
+    "re-nesting mutation must change the key; order axis: for every tree template over 5 "
+    "unshifted leaves and every shift t1 t2 i1 i2, (a) keys/hash of the tree and all its "
+    "nodes queried (and the tree used as dict key) before previous_timestep/iteration, (b) "
+    "shift first, (c) query, shift, query, shift again: the shifted tree and every inner "
+    "node must have the key of the same tree rebuilt from shifted leaves, differ from the "
+    "original, and leave all earlier keys unchanged; same for leaves (shift), projections "
+    "(transpose) and wrapped constants (negation). Non-trivial = distinct (family or template, "
     "variant pair) in which the two recipes differ in exactly one datum"
 )
 ASSUMPTIONS = [
@@ -36,8 +42,8 @@ ASSUMPTIONS = [
     "grids, interfaces and boundary grids of one md-grid are different domains even when their integer ids coincide",
 ]
 BOUNDS = {
-    "quick": "all families, all variant pairs; tree templates of depth <= 2 over 6 operators and a pool of 5 leaves with 2 mutations per leaf",
-    "thorough": "same as quick plus depth-2 trees over the full variant lists of Scalar, DenseArray, Variable, md-variable and Projection leaves",
+    "quick": "order axis over 349 trees x 4 shifts x 3 scenarios per operator; all families, all variant pairs; tree templates of depth <= 2 over 6 operators and a pool of 5 leaves with 2 mutations per leaf",
+    "thorough": "order axis over 793 trees x 4 shifts x 3 scenarios per operator; same as quick plus depth-2 trees over the full variant lists of Scalar, DenseArray, Variable, md-variable and Projection leaves",
 }
 MIN_CLASSES = 4
 
@@ -229,7 +235,157 @@ def cases(tier):
         for fam in THOROUGH_FAMILIES:
             for op1 in OPS:
                 out.append({"kind": "trees", "op": op1, "pool": fam})
+    # order axis: query keys, derive (shift / transpose / negate), query again
+    out.append({"kind": "order-leaf"})
+    for op1 in OPS:
+        out.append({"kind": "order", "op": op1, "tier": tier})
     return out
+
+
+# ----------------------------------------------------------------------------- order axis
+
+ORDER_LEAVES = [
+    ["mdvar", "p", ["sd0", "sd1"], None],
+    ["var", "p2", "sd0", None],
+    ["tdd", "a", ["sd0", "sd1"], None],
+    ["scalar", 2.0],
+    ["dense", [1.0, 2.0, 3.0]],
+]
+SHIFTS = (("t", 1), ("t", 2), ("i", 1), ("i", 2))
+
+
+def shifted_recipe(r, kind, k):
+    """The same tree written with shifted leaves (what op.previous_*(k) must denote)."""
+    if r[0] in ("var", "mdvar"):
+        return r[:3] + [[kind, k]]
+    if r[0] == "tdd":
+        return r[:3] + [[kind, k]] if kind == "t" else r
+    if r[0] == "tree":
+        nops = 1 if r[1] == "d1" else 2
+        return r[: 2 + nops] + [shifted_recipe(x, kind, k) for x in r[2 + nops :]]
+    return r
+
+
+def _nodes(op):
+    out = [op]
+    for c in getattr(op, "children", []):
+        out.extend(_nodes(c))
+    return out
+
+
+def _order_tree(out, tree, kind, k):
+    """Scenarios (a) query-shift-query, (b) shift-query, (c) query-shift-query-shift-query."""
+    ref = shifted_recipe(tree, kind, k)
+    k_ref, h_ref = _key_hash(ref)
+    k_orig, h_orig = _key_hash(tree)
+    ref_nodes = [n._key() for n in _nodes(build(ref))]
+    must_differ = ref != tree
+
+    def bad(scn, what, **kw):
+        if len(out.violations) < 12:
+            out.violate(what, scenario=scn, recipe=tree, shift=[kind, k], **kw)
+        else:
+            out.extra["violations_not_listed"] = out.extra.get("violations_not_listed", 0) + 1
+        out.ev("VIOLATION:order:" + scn)
+
+    def check_shifted(scn, S, T, keys_before):
+        kS = S._key()
+        if kS != k_ref or hash(S) != h_ref:
+            return bad(scn, "shifted tree does not have the key of the same tree built from shifted leaves", observed=kS[:300], expected=k_ref[:300], equals_original_key=bool(kS == k_orig))
+        if must_differ and kS == k_orig:
+            return bad(scn, "shifted tree shares the key of the original tree", key=kS[:300])
+        got_nodes = [n._key() for n in _nodes(S)]
+        if got_nodes != ref_nodes:
+            return bad(scn, "inner node of the shifted tree has a wrong key", observed=[g[:120] for g in got_nodes], expected=[g[:120] for g in ref_nodes])
+        if T._key() != k_orig or hash(T) != h_orig:
+            return bad(scn, "key of the original tree changed by deriving the shifted tree", observed=T._key()[:300], expected=k_orig[:300])
+        if keys_before is not None and [n._key() for n in _nodes(T)] != keys_before:
+            return bad(scn, "key of a node of the original tree changed by the shift")
+        return True
+
+    def shift(op, kk):
+        return op.previous_timestep(kk) if kind == "t" else op.previous_iteration(kk)
+
+    try:
+        # (a) keys and hash of the tree and of every node first (also used as a dict key)
+        T = build(tree)
+        before = [n._key() for n in _nodes(T)]
+        _ = {T: hash(T)}
+        if check_shifted("a", shift(T, k), T, before) is True:
+            out.ev("order-a-ok", ("oa", repr(tree), kind, k) if must_differ else None)
+        # (b) shift first
+        T = build(tree)
+        if check_shifted("b", shift(T, k), T, None) is True:
+            out.ev("order-b-ok")
+        # (c) query, shift by 1, query, shift again by k, query
+        T = build(tree)
+        before = [n._key() for n in _nodes(T)]
+        S1 = shift(T, 1)
+        k1 = S1._key()
+        k1_ref, _ = _key_hash(shifted_recipe(tree, kind, 1))
+        S2 = shift(S1, k)
+        k2_ref, h2_ref = _key_hash(shifted_recipe(tree, kind, 1 + k))
+        if k1 != k1_ref:
+            bad("c", "shifted tree does not have the key of the same tree built from shifted leaves", observed=k1[:300], expected=k1_ref[:300])
+        elif S2._key() != k2_ref or hash(S2) != h2_ref:
+            bad("c", "twice shifted tree does not have the key of the tree built from leaves shifted by the total number of steps", observed=S2._key()[:300], expected=k2_ref[:300])
+        elif S1._key() != k1 or T._key() != k_orig or [n._key() for n in _nodes(T)] != before:
+            bad("c", "key of an earlier tree changed by a later shift")
+        else:
+            out.ev("order-c-ok")
+    except Exception as exc:
+        bad("x", "order scenario raised", error=repr(exc)[:300])
+
+
+def _order_leaves(out):
+    fam = families()
+    # Variables, md-variables, time-dependent arrays: query, shift, query
+    for r in [x for f in ("variable", "mdvar", "tdd") for x in fam[f] if x[3] is None]:
+        for kind, k in SHIFTS:
+            ref = shifted_recipe(r, kind, k)
+            try:
+                L = build(r)
+                k0, h0 = L._key(), hash(L)
+                S = _shift(L, [kind, k])
+                k_ref, h_ref = _key_hash(ref)
+                if S._key() != k_ref or hash(S) != h_ref:
+                    out.violate("shifted leaf does not have the key of a freshly built shifted leaf", recipe=r, shift=[kind, k], observed=S._key()[:300], expected=k_ref[:300])
+                    out.ev("VIOLATION:order:leaf")
+                elif ref != r and S._key() == k0:
+                    out.violate("shifted leaf shares the key of the original leaf", recipe=r, shift=[kind, k])
+                    out.ev("VIOLATION:order:leaf")
+                elif L._key() != k0 or hash(L) != h0 or L._key() != _key_hash(r)[0]:
+                    out.violate("key of the original leaf changed by deriving the shifted leaf", recipe=r, shift=[kind, k])
+                    out.ev("VIOLATION:order:leaf")
+                else:
+                    out.ev("order-leaf-ok:" + r[0], ("ol", repr(r), kind, k) if ref != r else None)
+            except Exception as exc:
+                out.violate("order scenario raised", recipe=r, shift=[kind, k], error=repr(exc)[:300])
+                out.ev("VIOLATION:order:leaf")
+    # Projections: query, transpose, query
+    for r in [x for x in fam["projection"] if not x[5]]:
+        P = build(r)
+        k0 = P._key()
+        PT = P.T
+        k_ref = _key_hash(r[:5] + [True])[0]
+        if PT._key() != k_ref or P._key() != k0 or (not same_operator(r, r[:5] + [True]) and PT._key() == k0):
+            out.violate("transposing a projection after its key was queried gives inconsistent keys", recipe=r, observed=PT._key()[:300], expected=k_ref[:300])
+            out.ev("VIOLATION:order:projection")
+        else:
+            out.ev("order-leaf-ok:proj-transpose", ("ot", repr(r)))
+    # Scalars, dense and sparse arrays: query, negate, query
+    for f in ["scalar", "dense"] + [x for x in fam if x.startswith("sparse_")]:
+        for r in fam[f]:
+            A = build(r)
+            k0 = A._key()
+            N = -A
+            k_ref = (-build(r))._key()
+            nonzero = r != ["scalar", 0.0]
+            if N._key() != k_ref or A._key() != k0 or (nonzero and N._key() == k0):
+                out.violate("negating a wrapped constant after its key was queried gives inconsistent keys", recipe=r, observed=N._key()[:300], expected=k_ref[:300])
+                out.ev("VIOLATION:order:neg")
+            else:
+                out.ev("order-leaf-ok:neg", ("on", repr(r)))
 
 
 def _key_hash(r):
@@ -290,6 +446,23 @@ def _demand_different(out, what, a, b):
 
 def run_case(case) -> Outcome:
     out = Outcome()
+    if case["kind"] == "order-leaf":
+        _order_leaves(out)
+        return out
+    if case["kind"] == "order":
+        op1 = case["op"]
+        trees = [["tree", "d1", op1, a, b] for a in ORDER_LEAVES for b in ORDER_LEAVES]
+        inner = ORDER_LEAVES[:4] if case.get("tier") == "thorough" else [ORDER_LEAVES[0], ORDER_LEAVES[2], ORDER_LEAVES[3]]
+        for op2 in OPS:
+            for a, b, c in itertools.product(inner, repeat=3):
+                trees.append(["tree", "left", op1, op2, a, b, c])
+                trees.append(["tree", "right", op1, op2, a, b, c])
+        for t in trees:
+            for kind, k in SHIFTS:
+                _order_tree(out, t, kind, k)
+        if not out.samples:
+            out.samples.append({"tree": trees[30], "shift": ["t", 1], "rebuilt_from_shifted_leaves": shifted_recipe(trees[30], "t", 1)})
+        return out
     if case["kind"] == "family":
         fam = families()[case["family"]]
         for r in fam:
